@@ -374,7 +374,14 @@ func (a Attr) unmarshalToType(data []byte) (any, error) {
 		}
 	case AttrTypeBytes:
 		s := make([]byte, len(data))
-		err = json.Unmarshal(data, &s)
+
+		if len(data) > 0 && data[0] == '"' {
+			err = json.Unmarshal(data, &s)
+		} else {
+			// encoding/json also decodes an array of numbers into
+			// a slice of bytes.
+			err = errors.New("bytes are not a base64-encoded string")
+		}
 
 		if a.Nullable {
 			v = &s
